@@ -418,8 +418,10 @@ def sha256(prog, rep):
 
 
 # ---- padding, HMAC, PBKDF2 -------------------------------------------------------------
-def k2_k3_k6(prog, rep):
+def k2_k3_k6(prog, rep, only=None):
     for up, pref, dlen, enc in (("alg/sha256.c", "SHA256", 32, "be64enc"), ("alg/sha1.c", "SHA1", 20, "be32enc_vect"), ("alg/md5.c", "MD5", 16, "le32enc_vect")):
+        if only is not None and pref not in only:
+            continue
         u = prog.unit(up)
         pad = u.global_ints("PAD")
         rep.check(pad == [0x80] + [0] * 63, "K2-pad", "%s PAD[64] = 0x80, 0, ..." % pref, (u.global_("PAD") or {}).get("loc", ""), "", function="PAD", construct="table")
@@ -611,6 +613,16 @@ def k5(prog, rep):
                 sh_ = v[1][2][1] if v[1][0] == ">>" else 0
                 outs[norm(e.kid(0))[2][1]] = sh_
     rep.check(outs == {0: 0, 1: 8, 2: 16, 3: 24}, "K5-crc", "Final writes the state least-significant byte first", fi.loc, "%s" % outs, function="CRC32C_Final", construct="final")
+
+
+def sha256_rules(cfg, rep):
+    """SHA-256 / HMAC-SHA256 as other properties rely on them (C11's generator, C19's signatures): compression structure,
+    padding, HMAC pads and sequences, bounded block-buffer writes, context typestate."""
+    prog = ir.Program(["alg/sha256.c"], cfg)
+    rep.add_stats(prog)
+    sha256(prog, rep)
+    k2_k3_k6(prog, rep, only=("SHA256",))
+    ctx_typestate(prog, rep, ["alg/sha256.c"])
 
 
 def k7_regions(prog, rep):
